@@ -3,7 +3,8 @@
    tables goextract read from apkindex.go / package.go / installed.go /
    passwd.go / group.go on this run (Generated/FieldLetters.v). *)
 From Apko Require Import Base.Prelude Base.C16Lib Model.Formats Spec.FormatsSpec
-  Proofs.FormatsProofs Proofs.FormatsPasswd Proofs.FormatsPath Proofs.FormatsSort Proofs.FormatsInstalled Generated.FieldLetters.
+  Proofs.FormatsProofs Proofs.FormatsPasswd Proofs.FormatsPath Proofs.FormatsSort Proofs.FormatsInstalled
+  Proofs.FormatsFixpoint Proofs.FormatsFit Proofs.FormatsFields Proofs.FormatsReach Generated.FieldLetters.
 
 (* the APKINDEX template in the source is the one the theorems are about *)
 Theorem c16_index_template_pinned :
@@ -335,3 +336,161 @@ Theorem c16_sort_envelope_needed :
      Permutation.Permutation out [mkHdr "a/" true 493 0 0 ""; mkHdr "a/b/" true 493 0 0 ""; mkHdr "a/b/c/." false 420 0 0 ""] /\ governed None out = false).
 Proof. exact sort_envelope_needed. Qed.
 Print Assumptions c16_sort_envelope_needed.
+
+(* ---- hypotheses on the FIELDS instead of on the written lines ---------------------
+   [text_fits max k s]: s has no LF, does not end in CR, and nlen s + k <= max
+   (k = the letter, the colon and the line terminator, plus "Q1" for checksums).
+   [items_fit max k l]: no item has an LF, the last one does not end in CR, and the
+   items with one separator each fit.  Numbers need nothing beyond their Go range:
+   a uint64 prints in at most 20 digits, an int64 in at most 20 characters, and
+   the token limits read from the source leave room for them. *)
+Theorem c16_number_lines_fit :
+  (forall n, (n < two64)%N -> (nlen (fmt_n n) <= 20)%N) /\
+  (forall z, (- Z.of_N two63 <= z < Z.of_N two63)%Z -> (nlen (fmt_z z) <= 20)%N) /\
+  (23 <= index_max_token)%N /\ (49 <= installed_max_token)%N.
+Proof. exact (conj fmt_n_len64 (conj fmt_z_len64 (conj index_token_room installed_token_room))). Qed.
+Print Assumptions c16_number_lines_fit.
+
+(* APKINDEX: the round-trip, its Prop form and the read-write fixpoint, for EVERY
+   list of records whose fields fit index_max_token (the limit ParsePackageIndex
+   hands to Scanner.Buffer, read by goextract) *)
+Theorem c16_index_roundtrip_fields :
+  forall (enc : list N -> string) (dec : string -> option (list N)),
+  (forall b, dec (enc b) = Some b) ->
+  forall ps, Forall pkg_ok ps -> Forall (index_fields_fit enc index_max_token) ps ->
+  parse_index dec (write_index enc ps) = Ok (map norm_index (named ps)) /\
+  (Forall (fun p => p_replaces p = []) ps -> IndexRoundTrip ps (parse_index dec (write_index enc ps))) /\
+  (exists l, parse_index dec (write_index enc ps) = Ok l /\ write_index enc l = write_index enc ps).
+Proof. exact index_roundtrip_fields. Qed.
+Print Assumptions c16_index_roundtrip_fields.
+
+Definition ex_pkg : pkg :=
+  set_checksum [1%N; 2%N] (set_prio 7%N (set_isize 4096%N (set_size 18446744073709551615%N
+    (set_replaces ["r"] (set_installif ["x"; "y=1"] (set_provides ["so:libc.so.6=1"; "cmd:a"] (set_deps ["b>1"; "!c"]
+    (set_commit "abc" (set_url "https://e" (set_maint "m <m@e>" (set_origin "o" (set_license "MIT"
+    (set_desc "a b c" (set_arch "x86_64" (set_version "1.2.3-r4" (set_name "a" empty_pkg)))))))))))))))).
+Definition ex_files : list hdr :=
+  [mkHdr "usr/bin/ls" false 2505 5 6 "Q1abc"; mkHdr "./usr/" true 493 0 0 ""; mkHdr "usr/bin" true 488 3 4 ""].
+Ltac fits_tac := repeat split; try (vm_compute; (reflexivity || discriminate)); try (repeat constructor; vm_compute; reflexivity).
+Example c16_index_roundtrip_fields_ex :
+  let enc := fun b : list N => sconcat (map (fun n => fmt_n n +++ ",") b) in
+  index_fields_fit enc index_max_token ex_pkg.
+Proof. cbn zeta. constructor; fits_tac. Qed.
+
+(* installed database, write then read, with the hypotheses on the fields (same
+   conclusion and same missing parts as c16_installed_roundtrip_partial) *)
+Theorem c16_installed_roundtrip_fields_partial :
+  forall (enc : list N -> string) (dec hexdec : string -> option (list N)),
+  (forall b, dec (enc b) = Some b) ->
+  forall p files t,
+  inst_pkg_ok p -> p_name p <> "" -> sort_envelope files -> Forall id_ok files ->
+  inst_fields_fit enc installed_max_token p -> Forall (file_fields_fit enc hexdec installed_max_token) files ->
+  write_installed enc hexdec p files = Ok t ->
+  exists sorted, sort_headers files = Ok sorted /\
+    parse_installed dec t = Ok [(norm_inst p, map rec_clean sorted)] /\
+    InstalledRoundTripPartial p files (parse_installed dec t).
+Proof. exact installed_roundtrip_fields_partial. Qed.
+Print Assumptions c16_installed_roundtrip_fields_partial.
+
+(* ---- installed database: reading a written record and writing it again -------------
+   FULL inside the envelope, which is, clause by clause:
+   * the package: [inst_pkg_ok], named, every field fits ([inst_fields_fit]);
+   * no cleaned name occurs twice (a directory named twice: finding C16-F7, refuted
+     form c16_installed_fixpoint_dup_dir_refuted) and none is ".";
+   * every entry is reachable: each ancestor is present as a directory entry and
+     the top-level one has a child (outside: C16-F5, the entry is not written);
+   * non-directory names end in an ordinary component;
+   * uid/gid fit Go's int; names have no LF/CR and fit, checksums fit
+     ([file_fields_fit]);
+   * directory names end in at most ONE slash ([one_slash]; outside: finding C16-F8,
+     refuted form below: TrimSuffix removes one slash per write).
+   For EVERY such package and file list, of any size: ParseInstalled returns one
+   record; sortTarHeaders leaves the list it returns alone; the second
+   AddInstalledPackage succeeds, and its text is the first one with the Z: lines
+   dropped (C16-F2) and the i: line wrapped in one more pair of brackets (C16-F1) —
+   every other line identical and in the same order ([InstalledFixpointModIZ], the
+   statement the validator installed_fixpoint_tags decides up to those two tags). *)
+Theorem c16_installed_fixpoint :
+  forall (enc : list N -> string) (dec hexdec : string -> option (list N)),
+  (forall b, dec (enc b) = Some b) ->
+  forall p files t,
+  inst_pkg_ok p -> p_name p <> "" -> inst_fields_fit enc installed_max_token p ->
+  NoDup (map (fun h => clean (h_name h)) files) ->
+  (forall h, In h files -> clean (h_name h) <> ".") ->
+  (forall h, In h files -> reachable (S (String.length (clean (h_name h)))) files (clean (h_name h)) = true) ->
+  (forall h, In h files -> h_isdir h = false -> plain_base (h_name h)) ->
+  Forall id_ok files -> Forall (file_fields_fit enc hexdec installed_max_token) files ->
+  Forall one_slash files ->
+  write_installed enc hexdec p files = Ok t ->
+  exists sorted fl t',
+    sort_headers files = Ok sorted /\ files_lines enc hexdec sorted = Ok fl /\
+    t = join s_nl (pkg_to_installed enc p ++ fl) +++ s_nl +++ s_nl /\
+    parse_installed dec t = Ok [(norm_inst p, map rec_clean sorted)] /\
+    sort_headers (map rec_clean sorted) = Ok (map rec_clean sorted) /\
+    write_installed enc hexdec (norm_inst p) (map rec_clean sorted) = Ok t' /\
+    t' = join s_nl (pkg_to_installed enc (norm_inst p) ++ drop_z fl) +++ s_nl +++ s_nl /\
+    Forall2 line_step (pkg_to_installed enc p) (pkg_to_installed enc (norm_inst p)) /\
+    InstalledFixpointModIZ t t'.
+Proof.
+  intros enc dec hexdec codec p files t Hp Hn Fp N D R B Hid Ff One Hw.
+  exact (installed_fixpoint_fields enc dec hexdec codec p files t Hp Hn (Build_sort_envelope files N D R B) Hid One Fp Ff Hw).
+Qed.
+Print Assumptions c16_installed_fixpoint.
+
+Example c16_installed_fixpoint_ex :
+  inst_pkg_ok ex_pkg /\ p_name ex_pkg <> "" /\ inst_fields_fit wenc installed_max_token ex_pkg /\
+  sort_envelope ex_files /\ Forall id_ok ex_files /\ Forall (file_fields_fit wenc whex installed_max_token) ex_files /\
+  Forall one_slash ex_files /\ exists t, write_installed wenc whex ex_pkg ex_files = Ok t.
+Proof.
+  split; [|split; [discriminate|split; [|split; [|split; [|split; [|split]]]]]].
+  - constructor; try (vm_compute; (reflexivity || lia)); try (split; vm_compute; congruence);
+      repeat constructor; try discriminate.
+  - constructor; fits_tac.
+  - constructor.
+    + vm_compute. repeat constructor; cbn; intuition discriminate.
+    + intros h I. cbn in I. repeat destruct I as [<-|I]; try (vm_compute; discriminate). destruct I.
+    + intros h I. cbn in I. repeat destruct I as [<-|I]; try (vm_compute; reflexivity). destruct I.
+    + intros h I D. cbn in I. repeat destruct I as [<-|I]; try discriminate D; try (vm_compute; repeat split; discriminate). destruct I.
+  - repeat constructor; vm_compute; congruence.
+  - constructor; [|constructor; [|constructor; [|constructor]]]; (constructor; [vm_compute; reflexivity|vm_compute; reflexivity|vm_compute; discriminate|]).
+    + right. right. left. fits_tac.
+    + left. reflexivity.
+    + left. reflexivity.
+  - repeat constructor; intro; vm_compute; discriminate.
+  - eexists. vm_compute. reflexivity.
+Qed.
+
+(* the one_slash clause is needed: a directory entry spelled "a//" is written F:a/,
+   read as "a/", and written F:a the second time (finding C16-F8) *)
+Theorem c16_installed_fixpoint_double_slash_refuted :
+  sort_envelope witness_two_slashes /\ ~ Forall one_slash witness_two_slashes /\
+  exists t p' fs' t',
+    write_installed wenc whex witness_inst_pkg witness_two_slashes = Ok t /\
+    parse_installed wdec t = Ok [(p', fs')] /\
+    write_installed wenc whex p' fs' = Ok t' /\
+    ~ InstalledFixpointModIZ t t' /\
+    In "viol:installed-read-write-not-fixpoint" (installed_fixpoint_tags t (Ok t')) /\
+    two_slashes witness_two_slashes = true.
+Proof. exact installed_fixpoint_double_slash_refuted. Qed.
+Print Assumptions c16_installed_fixpoint_double_slash_refuted.
+
+(* the validator run on the IMPLEMENTATION's second text reports nothing but the two
+   recorded findings exactly when the readable statement holds *)
+Theorem c16_installed_fixpoint_validator_decides : forall orig rewritten,
+  InstalledFixpointModIZ orig rewritten <->
+  (forall t, In t (installed_fixpoint_tags orig (Ok rewritten)) -> t = s_f1 \/ t = s_f2).
+Proof. exact installed_fixpoint_validator. Qed.
+Print Assumptions c16_installed_fixpoint_validator_decides.
+
+(* ---- the fuel of the validator's reachability test ------------------------------------
+   [reachable] (Spec) walks filepath.Dir steps with fuel S (length c).  No fuel
+   does better: whenever SOME fuel finds the entry reachable, that one does; and
+   for c other than "." it coincides with the fuel-free inductive reading (every
+   ancestor present as a directory entry, the top-level one has a child).  So a
+   lost entry is tagged installed-unreachable-entry-dropped (C16-F5) only when it
+   is unreachable, and *-record-lost / sort-entry-lost otherwise. *)
+Theorem c16_reachable_fuel :
+  (forall hs c f, reachable f hs c = true -> reachable (S (String.length c)) hs c = true) /\
+  (forall hs c, c <> "." -> (Reach hs c <-> reachable (S (String.length c)) hs c = true)).
+Proof. exact (conj reachable_fuel_enough reach_iff_reachable). Qed.
+Print Assumptions c16_reachable_fuel.
